@@ -137,6 +137,25 @@ pub mod verif_addr {
                 .unwrap_or_default()
         }
 
+        /// `AddressStore::insert(AddressRecord::new(peer, address, score))` on the store of `peer`
+        /// (what the other users of the store, e.g. the Kademlia routing table, do with their own
+        /// scores).
+        pub fn verif_store_insert(&self, peer: PeerId, address: Multiaddr, score: i32) {
+            let mut peers = self.peers.write();
+            let context = peers.entry(peer).or_default();
+            context.addresses.insert(AddressRecord::new(&peer, address, score));
+        }
+
+        /// The node's `PublicAddresses` (crate-private accessor otherwise).
+        pub fn verif_public_addresses(&self) -> crate::addresses::PublicAddresses {
+            self.public_addresses()
+        }
+
+        /// The registered listen addresses as the manager stores them, unordered.
+        pub fn verif_listen_addresses(&self) -> Vec<Multiaddr> {
+            self.listen_addresses.read().iter().cloned().collect()
+        }
+
         /// The transport `dial(peer)` hands `address` to (private `supported_transports_addresses`).
         pub fn verif_route(address: &Multiaddr) -> Option<SupportedTransport> {
             Self::supported_transports_addresses(std::slice::from_ref(address))
